@@ -996,6 +996,8 @@ def _lt(it, a, b):
         a, b = a.d, b.d
     if isinstance(a, Sym) or isinstance(b, Sym):
         raise Unsupported('ordering of native key symbols (declare ordered keys as z3 terms)')
+    if isinstance(a, Adt) and isinstance(b, Adt) and a.ty in ('Instant', 'Duration') and a.ty == b.ty:
+        return a.f[0] < b.f[0]
     if isinstance(a, str) and isinstance(b, str):
         return a < b
     if isinstance(a, int) and isinstance(b, int):
@@ -1411,7 +1413,7 @@ def m_clone(it, name, a):
     return clone_val(it.deref(a[0]))
 
 
-@model(r'<.* as (PartialOrd|Ord)(<.*>)?>::(lt|le|gt|ge|cmp|partial_cmp|max|min)')
+@model(r'(std|core)::cmp::(max|min)(::<.*>)?', r'<.* as (PartialOrd|Ord)(<.*>)?>::(lt|le|gt|ge|cmp|partial_cmp|max|min)')
 def m_ord(it, name, a):
     op = _meth(name)
     if op in ('max', 'min'):
@@ -1425,7 +1427,8 @@ def m_ord(it, name, a):
         x, y = x.f[0], y.f[0]
         if op in ('lt', 'le', 'gt', 'ge'):
             return {'lt': lambda: x < y, 'le': lambda: x <= y, 'gt': lambda: x > y, 'ge': lambda: x >= y}[op]()
-        raise Unsupported('cmp of time values')
+        o = Adt('Ordering', 'Less' if it.decide(x < y) else ('Equal' if it.decide(x == y) else 'Greater'), [])
+        return some(o) if op == 'partial_cmp' else o
     ty = 'i64'
     if isinstance(x, EnumC):
         x, y = x.d, y.d
@@ -1612,7 +1615,14 @@ def m_map_clone(it, name, a):
 @model(r'<(HashMap|BTreeMap|HashSet|BTreeSet)<.*> as Extend<.*>>::extend(::<.*>)?')
 def m_map_extend(it, name, a):
     mp = it.deref(a[0])
+    byref = 'Extend<&' in name or 'Extend<(&' in name       # impl Extend<&T> for HashSet<T: Copy> / Extend<(&K, &V)>: copies
     for x in drain_iter(it, iter_of(it, a[1])):
+        if byref:
+            x = it.deref(x)
+            if isinstance(x, Adt) and x.ty == '()':
+                x = Adt('()', None, [clone_val(it.deref(y)) for y in x.f])
+            else:
+                x = clone_val(x)
         if isinstance(x, Adt) and x.ty == '()' and len(x.f) == 2 and 'Set' not in name.split(' as ')[0]:
             _map_insert(it, mp, x.f[0], x.f[1])
         else:
